@@ -5,9 +5,9 @@ package main
 // (bit-vectors of the Go width). Both are exact encodings of Go arithmetic.
 
 import (
-	"regexp"
 	"fmt"
 	"math/big"
+	"regexp"
 	"sort"
 	"strings"
 )
@@ -665,18 +665,18 @@ const (
 )
 
 type printer struct {
-	mode    Mode
-	sb      strings.Builder
-	done    map[int]string
-	decls   map[string]string // symbol -> declaration line
-	dorder  []string
-	defs    []string
-	usesNIA bool
-	abstractBits bool // variable-by-variable bitwise operators as uninterpreted functions (sound for proving)
+	mode            Mode
+	sb              strings.Builder
+	done            map[int]string
+	decls           map[string]string // symbol -> declaration line
+	dorder          []string
+	defs            []string
+	usesNIA         bool
+	abstractBits    bool // variable-by-variable bitwise operators as uninterpreted functions (sound for proving)
 	usedAbstraction bool
 	// canonical naming: the text of a query depends only on the query, not on how many terms
 	// and fresh symbols the process created before it (solver run times depend on names)
-	localID map[int]int
+	localID  map[int]int
 	symCanon map[string]string
 	symCount map[string]int
 }
